@@ -1117,8 +1117,23 @@ func C10() *kit.Spec {
 						vals = append(vals, r.Intn(96)) // printable / digit pairs in any code set
 					}
 					vals = append(vals, ref.Code128Check(vals))
+					// Code 128 writer input: printable text, digit runs (code set C),
+					// control characters (code set A) between lower-case letters
+					// (code set B), i.e. every code-set switch and shift
+					style := r.Intn(4)
 					for i := 0; i < n; i++ {
-						text += string(rune(32 + r.Intn(95)))
+						switch {
+						case style == 1 && r.Chance(1, 4):
+							text += string(rune(r.Intn(32))) // control character
+						case style == 1:
+							text += string(rune('a' + r.Intn(26)))
+						case style == 2 && r.Chance(1, 2):
+							text += fmt.Sprintf("%02d", r.Intn(100))
+						case style == 3:
+							text += string(rune(r.Intn(128)))
+						default:
+							text += string(rune(32 + r.Intn(95)))
+						}
 					}
 				} else {
 					for i := 0; i < n; i++ {
